@@ -39,6 +39,8 @@ type Reader struct {
 	buffer    []byte
 	bytesRead uint64
 	config    *configuration.Configuration
+
+	countedReader countedReader
 }
 
 func NewReader(config *configuration.Configuration) *Reader {
@@ -54,6 +56,21 @@ func (_this *Reader) Init(config *configuration.Configuration) {
 
 func (_this *Reader) SetReader(reader io.Reader) {
 	_this.reader = reader
+	_this.countedReader.owner = _this
+}
+
+// countedReader gives the external field decoders (ULEB128, compact float, compact time) a reader whose bytes count
+// towards the maximum document size, like every byte this Reader reads itself.
+type countedReader struct {
+	owner *Reader
+}
+
+func (_this *countedReader) Read(p []byte) (n int, err error) {
+	n, err = _this.owner.reader.Read(p)
+	if n > 0 {
+		_this.owner.markBytesRead(n)
+	}
+	return
 }
 
 func (_this *Reader) ReadUint8() uint8 {
@@ -144,7 +161,7 @@ func (_this *Reader) ReadFloat64() float64 {
 }
 
 func (_this *Reader) ReadDecimalFloat() (compact_float.DFloat, *apd.Decimal) {
-	value, bigValue, _, err := compact_float.DecodeWithByteBuffer(_this.reader, _this.buffer)
+	value, bigValue, _, err := compact_float.DecodeWithByteBuffer(&_this.countedReader, _this.buffer)
 	if err != nil {
 		_this.unexpectedError(err)
 	}
@@ -153,7 +170,7 @@ func (_this *Reader) ReadDecimalFloat() (compact_float.DFloat, *apd.Decimal) {
 }
 
 func (_this *Reader) ReadDate() compact_time.Time {
-	value, _, err := compact_time.DecodeDateWithBuffer(_this.reader, _this.buffer)
+	value, _, err := compact_time.DecodeDateWithBuffer(&_this.countedReader, _this.buffer)
 	if err != nil {
 		_this.unexpectedError(err)
 	}
@@ -163,7 +180,7 @@ func (_this *Reader) ReadDate() compact_time.Time {
 }
 
 func (_this *Reader) ReadTime() compact_time.Time {
-	value, _, err := compact_time.DecodeTimeWithBuffer(_this.reader, _this.buffer)
+	value, _, err := compact_time.DecodeTimeWithBuffer(&_this.countedReader, _this.buffer)
 	if err != nil {
 		_this.unexpectedError(err)
 	}
@@ -173,7 +190,7 @@ func (_this *Reader) ReadTime() compact_time.Time {
 }
 
 func (_this *Reader) ReadTimestamp() compact_time.Time {
-	value, _, err := compact_time.DecodeTimestampWithBuffer(_this.reader, _this.buffer)
+	value, _, err := compact_time.DecodeTimestampWithBuffer(&_this.countedReader, _this.buffer)
 	if err != nil {
 		_this.unexpectedError(err)
 	}
@@ -228,7 +245,7 @@ func (_this *Reader) markBytesRead(byteCount int) {
 }
 
 func (_this *Reader) readSmallULEB128(name string, maxValue uint64) uint64 {
-	asUint, asBig, _, err := uleb128.DecodeWithByteBuffer(_this.reader, _this.buffer)
+	asUint, asBig, _, err := uleb128.DecodeWithByteBuffer(&_this.countedReader, _this.buffer)
 	if err != nil {
 		_this.unexpectedError(err)
 	}
